@@ -21,6 +21,11 @@ CLAIMS["C18"] = dict(
   text="On the HIR of rink_sandbox as it stands: the request loop's statement order (recv, write, await reply, exactly one send, optional kill+break) with no skipping break/continue and `?`-consumed results gives one reply per request; the arm table of `match pending.await` is checked against facts extracted from the child (it exits after any Err reply; one read and one write per iteration): every Err-answering arm must set break_out, break_out must reach process.kill() and a break to the loop that spawns a new child whose fresh stdin/stdout are the handles used afterwards; execute pairs one send with one recv over bounded(1) channels; the four framing functions agree on prefix type, endianness, byte count and order. This decides the protocol's shape for all request/fault sequences at once; timing, signals and pipe semantics are outside static reach and not claimed.",
   note="Trusted: the extractor's reading of the HIR shape (a restructured run_task is reported as anchor-lost, not passed); OS process and pipe behaviour; async-std's timeout/race semantics.",
   design_ref="DESIGN.md section 4, C18")
+CLAIMS["C20"] = dict(
+  technique="must-pass-through / single-edge cut-set on MIR + def-use of path arguments + inter-procedural who-may-write (cache-path taint)",
+  text="From the MIR of the cli crate in /repo's current tree: NamedTempFile::persist in download_to_file is reachable only through the `?`-consumed success edges of Easy::perform, Easy::response_code, the `status == 200` edge and File::sync_all on the same temp file; the temp file is created with tempfile_in(parent(path)) for the very path that is persisted and the download body goes only to a clone of its handle; every call in the cli crate that creates, truncates, renames or removes files is enumerated and none outside that discipline receives a path derived from dirs::cache_dir() (taint propagated through call arguments); cached() falls back to the stale file, load() survives a currency failure, force_refresh_currency propagates errors. This is the write discipline the property rests on, decided for all paths; atomicity of rename, curl's error detection and kill -9 behaviour are OS/library semantics and are assumptions.",
+  note="Trusted: rename(2) atomicity on one filesystem, curl reporting truncated/timeout transfers as errors of perform(), tempfile's drop clean-up, the driver. File-mutating call sites that do not involve the cache path are listed in the evidence, not judged.",
+  design_ref="DESIGN.md section 4, C20")
 NA = {
  "C05": "digit strings, recurring-block offsets and the 1-ulp truncation bound are number-theoretic facts about runtime values of p/q and the base; no structural clause is a genuine necessary condition (DESIGN.md section 4, C05)",
 }
